@@ -29,6 +29,11 @@ CLAIMED = {
          "One production stack per (engine, strategy, fallback, refresh-on-miss). The table strategy x fallback x healthy-subset x listing-subset over 4 endpoints is enumerated completely (exact spelling, proxy route) and rapid adds endpoint counts, model spellings (case, :latest), provider and Anthropic routes, bodies above the 1 MiB inspection limit and discovery histories in which an endpoint dropped the model; the serving backend, the client status (served / 404 / 503 / fallback to the healthy set) and the X-Olla-Routing-Decision header are compared with a reference decision table written from the statement.",
          "Service direction only for the exact lower-case spelling, safety direction for all; discovery strategy with fallback all and refresh off accepts service or honest rejection; listed known findings are tolerated by exact root-cause signature.",
          "DESIGN.md §3 C09"),
+ "C10": ("exploration",
+         "rapid op-list state machine against a reference map (sequential, rounds, concurrent bursts with a sequential shadow run); glob-filter differential (long-lived vs fresh vs reference matcher); scripted discovery machine",
+         "Generated histories of register / replace / remove / invalid updates over 3 endpoints and a collision-rich model alphabet are applied to the plain and the unified registry; after every step (at quiescence) per-endpoint listings, model->endpoints lookups, availability, statistics and the unified catalogue are compared through the exported queries with a reference map of the last successful listing; rejected updates must change nothing. A long-lived GlobFilter must answer every (name, patterns) like a fresh one and like a reference matcher; ModelDiscoveryService.DiscoverEndpoint with a scripted client and generated filters must leave exactly the filtered listing.",
+         "Case-insensitive / alias fallback lookups are only constrained to return endpoints listing a related name; quiescence is detected by stable repeated polls (a real mismatch persists).",
+         "DESIGN.md §3 C10"),
  "C11": ("exploration",
          "enumeration of prefix x deployment tables + rapid-generated deployments through the full stack; typed recording backends; YAML-derived reference compatibility relation",
          "Every routing prefix declared by the shipped YAML profiles (read by the harness's own YAML reader) is exercised on both engines against deployments built from every shipped endpoint type plus auto and documented alias spellings, with health subsets: all size-1 and size-2 deployments are enumerated (quick: a third of the pair table per run), size-3 deployments and provider-native paths are rapid-generated; the backend that receives the request must have a type in the reference relation Compatible(prefix), offline endpoints receive nothing, and with no healthy compatible endpoint the client gets a non-2xx and no backend is contacted. Model listings under each prefix must only show models of healthy compatible endpoints.",
@@ -89,6 +94,11 @@ CLAIMED = {
          "Selectors obtained from balancer.Factory over a real stats collector are judged against reference rules on generated lists (n<=5, all statuses, priorities, gauge vectors) sequentially and from up to 32 goroutines: member-or-error, top-tier only and every tier member reached, exact k-per-member round-robin fairness over any window, minimal gauge for least-connections.",
          "Priority's weighted pick uses unseedable math/rand: tier coverage is judged over 1200 selections (miss probability <= e^-29 per case).",
          "DESIGN.md §3 C06"),
+ "C20": ("exploration",
+         "seed-corpus + rapid-generated byte/JSON mutations with per-target judges; native go fuzz targets (thorough); poisoned discovery rounds and hostile relay bodies through the full stack",
+         "Every provider's listing parser (through the real profile factory), the metrics extractor for every profile, TransformResponse and TransformStreamingResponse are fed the repository's own fixtures, hostile constants and rapid-generated byte-level and JSON-aware mutations of them; each call runs under a panic/hang guard (5 s) and its result is judged (error or sane output, finite non-wrapping numbers). At stack level a discovery round in which one endpoint serves an unparseable / empty / oversized / nameless / duplicate listing while another serves a good one must leave the registry consistent, keep a concurrent probe request served and let the next good round through; hostile bodies are relayed through the error and stream paths. The same judges sit inside four native fuzz targets whose saved inputs are replayed on every run.",
+         "Native coverage-guided fuzzing cannot be seeded and runs only in the thorough tier; the hang bound is wall-clock (5 s for inputs capped at 64 KiB).",
+         "DESIGN.md §3 C20"),
 }
 
 NOT_YET = "check under construction in this session; listed here until its command is registered"
